@@ -28,5 +28,10 @@ try:
     lines = [l for l in out.splitlines() if l.startswith(("VIOLATION", "  key=", "  what=", "KNOWN", "INCONCLUSIVE", "CHECK", "SUMMARY"))]
     print("\n".join(lines[-14:]))
     print("MUTANT %s: %s" % (cid, {0: "MISSED (exit 0)", 1: "CAUGHT", 2: "INCONCLUSIVE"}.get(r.returncode, "exit %d" % r.returncode)))
+    if not os.environ.get("MUTTEST_KEEP"):
+        # the run's work dir (witnesses of the mutant) is only kept on request
+        for l in out.splitlines():
+            if l.startswith("work dir kept: "):
+                shutil.rmtree(l[len("work dir kept: "):].strip(), ignore_errors=True)
 finally:
     shutil.rmtree(d, ignore_errors=True)
